@@ -223,7 +223,16 @@ def class_source(c, prog):
         # base with the required keys and a total=False subclass with the optional ones.
         req = [f for f in fields if f[0] in set(c["required"])]
         opt = [f for f in fields if f[0] not in set(c["required"])]
-        if opt:
+        if opt and c.get("td_style") == "opt_base":
+            lines.append(f"{ind}class _{name}Opt(typing.TypedDict, total=False):")
+            for fn, ft in opt:
+                lines.append(f"{ind}    {fn}: {ann(ft)}")
+            lines.append(f"{ind}class {name}(_{name}Opt):")
+            for fn, ft in req:
+                lines.append(f"{ind}    {fn}: {ann(ft)}")
+            if not req:
+                lines.append(f"{ind}    pass")
+        elif opt:
             lines.append(f"{ind}class _{name}Req(typing.TypedDict):")
             for fn, ft in req:
                 lines.append(f"{ind}    {fn}: {ann(ft)}")
